@@ -190,7 +190,7 @@ OPS = [
     ("ufunc with dtype= (the loop, not a cast of the result)", lambda z: z.dtype.kind == "f",
      lambda z: np.multiply(type(z).like(z, z.data.astype(np.float32)), 1 / 3, dtype=np.float64)),
     ("np.abs of complex data with dtype=float64 (a loop with another input type)", lambda z: z.dtype.kind == "c",
-     lambda z: np.abs(z.to_intensity() * 0 + np.abs(z), dtype=np.float64) if False else np.abs(pb.Signal(z.data, sample_rate=z.sample_rate), dtype=np.float64)),
+     lambda z: np.abs(pb.Signal(z.data, sample_rate=z.sample_rate), dtype=np.float64)),
     ("comparison with dtype=bool", lambda z: z.dtype.kind == "f", lambda z: np.less(pb.Signal(z.data, sample_rate=z.sample_rate), 0.1, dtype=bool)),
     ("np.add with dtype=float32 and a list operand", lambda z: z.dtype.kind == "f" and z.ndim == 1,
      lambda z: np.add(z, [0.1] * len(z), dtype=np.float32)),
@@ -204,7 +204,7 @@ OPS = [
      lambda z: np.add(_single(z), np.ones(z.shape[-1:], dtype=np.float64), casting="no")),
     ("out= larger than the broadcast operands", floaty, lambda z: _out_broadcast(z)),
     ("in-place multiply by double-precision weights", floaty, lambda z: _imul(z, _weights(z))),
-    ("in-place add of a float64 array", floaty, lambda z: _imul(z, 1.0) if False else _iadd(z)),
+    ("in-place add of a float64 array", floaty, lambda z: _iadd(z)),
     ("masked in-place add (out= with where=) of a float64 array into single-precision data", floaty, lambda z: _masked_iadd(z)),
     ("ufunc with casting=, order= and subok= keywords", floaty, lambda z: np.add(z, 1, casting="same_kind", order="K", subok=True)),
     ("ufunc with out= and casting='unsafe'", lambda z: z.dtype.kind == "f",
